@@ -1637,6 +1637,7 @@ class ContractionTree:
             si.ind: si for si in sorted((*tree.sliced_inds.values(), si))
         }
 
+        modified = []
         for node, node_info in tree.info.items():
             if len(node) == 1:
                 # handle leaves separately
@@ -1682,6 +1683,27 @@ class ContractionTree:
                     "tensordot_perm",
                 ):
                     tree.info[node].pop(k, None)
+                modified.append(node)
+
+        # the contraction 'recipes' of any ancestor refer to the explicit
+        # index order of its children, which might just have been reset
+        parents = {}
+        for p, lr in tree.children.items():
+            for c in lr:
+                parents[c] = p
+        seen = set()
+        for node in modified:
+            p = parents.get(node, None)
+            while (p is not None) and (p not in seen):
+                seen.add(p)
+                for k in (
+                    "einsum_eq",
+                    "can_dot",
+                    "tensordot_axes",
+                    "tensordot_perm",
+                ):
+                    tree.info[p].pop(k, None)
+                p = parents.get(p, None)
 
         tree.already_optimized.clear()
         tree.contraction_cores.clear()
